@@ -1003,6 +1003,14 @@ def hydrogen_judgement(s, obj, roles, want):
             nb[i].append(o)
             nb[j].append(o)
         for i, a in enumerate(g.atoms):
+            # whatever count the reader settled on: a neutral organic-subset atom with localised bonds whose bonds and
+            # hydrogens already fill its lowest normal valence is not a radical unless the text names it as one
+            v0 = _LOWVAL.get((a.z, 0)) if not a.charge else None
+            if (v0 is not None and (k + i) not in want and 4 not in nb[i] and real[i][0] is not None and real[i][1]
+                    and sum(nb[i]) + real[i][0] == v0):
+                return ('C03/wrong-graph/radical',
+                        f'smiles({s!r}) = {obj}: atom {k + i} of the text is built with {real[i][0]} hydrogens (valence {v0} filled) '
+                        f'and marked as a radical, although the text does not name it in a radical block')
             e = expected_hydrogens(a, nb[i], (k + i) in want)
             if e is None:
                 continue
